@@ -1728,7 +1728,13 @@ void DOMRangeImpl::checkReadOnly(DOMNode* start, DOMNode* end,
 
     // a collapsed range has no content that could be read-only
     if (start == end && startOffset == endOffset) return;
-    DOMNode*sNode = 0;
+
+    // sNode: the first node behind the start boundary-point,
+    // eNode: the first node behind the end boundary-point,
+    // both in document order; the nodes from sNode up to, but not
+    // including, eNode are the ones inside the range
+    DOMNode* sNode = 0;
+    DOMNode* eNode = 0;
 
     short type = start->getNodeType();
     if ( type == DOMNode::DOCUMENT_TYPE_NODE )
@@ -1750,15 +1756,15 @@ void DOMRangeImpl::checkReadOnly(DOMNode* start, DOMNode* end,
         if (start == end)
             return;
 
-        sNode = start;
+        sNode = nextNode(start, false);
     } else {
-        //set the start and end nodes to check
         sNode = start->getFirstChild();
-        for(XMLSize_t i = 0; i<startOffset; i++)
+        for(XMLSize_t i = 0; i<startOffset && sNode != 0; i++)
             sNode = sNode->getNextSibling();
+        if (sNode == 0)
+            sNode = nextNode(start, false);
     }
 
-    DOMNode* eNode;
     type = end->getNodeType();
     if ( type == DOMNode::DOCUMENT_TYPE_NODE )
     {
@@ -1771,22 +1777,28 @@ void DOMRangeImpl::checkReadOnly(DOMNode* start, DOMNode* end,
         || type == DOMNode::COMMENT_NODE
         || type == DOMNode::PROCESSING_INSTRUCTION_NODE))
     {
+        if (castToNodeImpl(end)->isReadOnly()) {
+            throw DOMException(
+                DOMException::NO_MODIFICATION_ALLOWED_ERR, 0, fMemoryManager);
+        }
         eNode = end; //need to check only till this node
     }
-    else { //need to check all the kids that fall before the end offset value
+    else {
         eNode = end->getFirstChild();
-        if (endOffset > 0)  {
-            for (XMLSize_t i = 0; i<endOffset-1; i++)
-                eNode = eNode->getNextSibling();
-        }
+        for (XMLSize_t i = 0; i<endOffset && eNode != 0; i++)
+            eNode = eNode->getNextSibling();
+        if (eNode == 0)
+            eNode = nextNode(end, false);
     }
-    //recursivly search if any node is readonly
+
+    //search if any node is readonly
     recurseTreeAndCheck(sNode, eNode);
 }
 
 void DOMRangeImpl::recurseTreeAndCheck(DOMNode* start, DOMNode* end)
 {
-    for(DOMNode* node=start; node != 0 && node !=end; node=node->getNextSibling())
+    // in document order, from start up to (not including) end
+    for(DOMNode* node=start; node != 0 && node !=end; node=nextNode(node, true))
     {
         if ( node->getNodeType()== DOMNode::DOCUMENT_TYPE_NODE )
         {
@@ -1797,11 +1809,6 @@ void DOMRangeImpl::recurseTreeAndCheck(DOMNode* start, DOMNode* end)
         if (castToNodeImpl(node)->isReadOnly()) {
             throw DOMException(
                 DOMException::NO_MODIFICATION_ALLOWED_ERR, 0, fMemoryManager);
-        }
-
-        if (node->hasChildNodes()) {
-            node = node->getFirstChild();
-            recurseTreeAndCheck(node, end);
         }
     }
 }
